@@ -15,7 +15,9 @@ RULE = ('spec trees of depth <= 3 (quick) / 4 (thorough) mixing tuple, Pipe, dic
         'A.globals.k, S(v=Vars(..)) + A.v.k, Let, Spec(scope=..), Ref(name, spec)) and readers (S.k, S["k"], '
         'S.globals.k, S.v.k, Ref(name)) over a pool of 3 names placed at random positions, so that every reader is '
         'sometimes inside, sometimes after, sometimes beside and sometimes outside the chain that binds its name; 40% of '
-        'cases pass a caller scope= mapping binding pool names; every call is made twice. Observed: result (hence what '
+        'cases pass a caller scope= mapping binding pool names; Match dicts are applied to dict targets with 2-3 items, '
+        'literal keys for a random subset of the items first and then a catch-all binding key (A.k / S(k=..) / Let) or '
+        'type key, the values reading the bound name (bare or under Coalesce(default=)); every call is made twice. Observed: result (hence what '
         'every reader saw), ordered call log, the caller mapping before/after, equality of the two calls. non-trivial = '
         'at least one binder and one reader; distinct = distinct (target, spec, scope)')
 TRUSTED = ['Python primitives are parameters (`Prims`), validated by the correspondence only']
@@ -73,6 +75,13 @@ def placements():
             {'k': 'switch', 'cases': [[{'k': 'tuple', 'xs': [b, {'k': 'str', 's': 'zz'}]}, T0], [T0, r]], 'dflt': {'k': 'lit', 'v': {'s': 'sd'}}},
             {'k': 'tuple', 'xs': [{'k': 'switch', 'cases': [[b, T0]], 'dflt': None}, r]},
             {'k': 'tuple', 'xs': [V({'d': [[{'s': 'q'}, {'i': 5}]]}), {'k': 'match', 's': {'k': 'dict', 'es': [[b, r]]}, 'dflt': {'k': 'lit', 'v': {'s': 'md'}}}]},
+            # Match-dict with several items: the binding key takes the first item, a literal key the second / third
+            {'k': 'tuple', 'xs': [V({'d': [[{'s': 'q'}, {'i': 5}], [{'s': 'z'}, {'i': 6}]]}),
+                                  {'k': 'match', 's': {'k': 'dict', 'es': [[{'k': 'str', 's': 'z'}, r], [b, T0]]}, 'dflt': {'k': 'lit', 'v': {'s': 'md'}}}]},
+            {'k': 'tuple', 'xs': [V({'d': [[{'s': 'q'}, {'i': 5}], [{'s': 'y'}, {'i': 0}], [{'s': 'z'}, {'i': 6}]]}),
+                                  {'k': 'match', 's': {'k': 'dict', 'es': [
+                                      [{'k': 'str', 's': 'z'}, {'k': 'coalesce', 'subs': [r], 'dflt': {'k': 'lit', 'v': {'s': 'unbound'}}, 'dflt_factory': None, 'skip': None, 'skip_exc': ['GlomError']}],
+                                      [{'k': 'str', 's': 'y'}, T0], [b, r]]}, 'dflt': None}]},
             {'k': 'tuple', 'xs': [b, {'k': 'tuple', 'xs': [{'k': 'sBind', 'bs': [['k1', {'k': 'lit', 'v': {'s': 'inner'}}]]}, r]}, r]},
             {'k': 'call', 'func': {'k': 'fn', 'name': 'f1', 'kind': 'pack'}, 'args': {'k': 'tuple', 'xs': [{'k': 'specW', 's': {'k': 'tuple', 'xs': [b, r]}, 'scope': []}, r]}, 'kwargs': {'k': 'dict', 'es': []}},
         ]
@@ -117,8 +126,12 @@ def generate(rng, tier, scale, **focus):
         t = g.target()
         depth = rng.choice([1, 2, 2, 3]) if tier == 'quick' else rng.choice([2, 3, 3, 4])
         spec = g.spec(t, depth)
-        if rng.random() < 0.35:
+        q = rng.random()
+        if q < 0.35:
             spec = g.s_bindchain(t, depth)
+        elif q < 0.43:
+            # a Match dict over a target with several items (sibling items of a binding key)
+            spec = g.s_matchdict(t, depth)
         scope = []
         if rng.random() < 0.4:
             for name in rng.sample(g.POOL, rng.randint(1, 2)):
